@@ -371,6 +371,8 @@ pub struct DevLog {
     pub chains: usize,
     pub indirect_chains: usize,
     pub errors: Vec<String>,
+    /// number of device-readable bytes of each chain, in fetch order
+    pub read_lens: Vec<usize>,
     /// device wrote NO_NOTIFY / avail_event so that a driver honouring the negotiated mechanism would (not) notify
     pub response_word: u32,
 }
@@ -412,6 +414,8 @@ pub fn install_device(st: &Rc<RefCell<TState>>, response_word: u32) -> Rc<RefCel
             if ch.indirect {
                 l.indirect_chains += 1;
             }
+            let rl = l.queues.get(&q).and_then(|rq| rq.read_in(&ch).ok()).map(|b| b.len()).unwrap_or(usize::MAX);
+            l.read_lens.push(rl);
             let rq = l.queues.get_mut(&q).unwrap();
             let wl = rq.writable_len(&ch);
             // response: little-endian word first (GPU response type / status byte 0 for blk), zeros after
@@ -645,6 +649,23 @@ fn gated_ops(c: &mut Case, cfg: &NewCfg, b: &mut Built<ModelTransport>, st: &Rc<
             if (n == 12) != (neg & F_VERSION_1 != 0) || (n != 12 && n != 10) {
                 c.fail(format!("net: header length {} with VERSION_1 negotiated = {}", n, neg & F_VERSION_1 != 0));
             }
+            // ... and that is the header every transmitted frame carries, an empty frame included
+            let want = if neg & F_VERSION_1 != 0 { 12 } else { 10 };
+            let dev = install_device(st, 0);
+            for payload in [0usize, 3, 64] {
+                let data = vec![0x5au8; payload];
+                let r = guarded(|| drv.send(&data).is_ok());
+                let got = dev.borrow().read_lens.last().copied();
+                if !matches!(r, Ok(true)) || got != Some(want + payload) {
+                    c.fail(format!("net: send of a {}-byte frame put {:?} device-readable bytes on the transmit queue, expected header {} + payload (VERSION_1 negotiated = {})", payload, got, want, neg & F_VERSION_1 != 0));
+                }
+            }
+            for e in &dev.borrow().errors {
+                c.fail(format!("net device: {}", e));
+            }
+            let (tl, m) = model_log(&st.borrow(), *mark);
+            *mark = m;
+            let _ = merged(tl);
         }
         Built::Rng(drv) => {
             // single-descriptor request: never indirect; the device checks the INDIRECT flag
